@@ -72,7 +72,9 @@ var sentinels = []struct {
 
 func renderErr(err error) string {
 	if err == nil {
-		return "nilerr"
+		// Error(nil): a producer may end its stream with a nil error; it is still an ERROR ending (which callback fired decides,
+		// not the value). Scripts write it E0, the model carries it as the reserved error value `sentinel 0`.
+		return "s0"
 	}
 	if u, ok := err.(userErr); ok {
 		return "u" + strconv.Itoa(u.n)
@@ -396,7 +398,11 @@ func emit(dest ro.Observer[int], subCtx context.Context, t Tok) {
 	case 'N':
 		dest.NextWithContext(ctx, t.val)
 	case 'E':
-		dest.ErrorWithContext(ctx, userErr{t.val})
+		if t.val == 0 {
+			dest.ErrorWithContext(ctx, nil) // E0 = Error(nil)
+		} else {
+			dest.ErrorWithContext(ctx, userErr{t.val})
+		}
 	case 'C':
 		dest.CompleteWithContext(ctx)
 	}
